@@ -66,11 +66,14 @@ func (r *rtime) compactTimers() {
 	r.timers = q
 }
 
+// nextDeadline is the earliest armed deadline strictly in the future: time may
+// move on while a due timer has not been delivered yet (the runtime delivers a
+// tick some time after it is due; under load that can be long).
 func (r *rtime) nextDeadline() (int64, bool) {
 	var best int64
 	ok := false
 	for _, t := range r.timers {
-		if t.armed && (!ok || t.when < best) {
+		if t.armed && t.when > r.now && (!ok || t.when < best) {
 			best, ok = t.when, true
 		}
 	}
